@@ -36,6 +36,11 @@ claimed = {
    note="NOT proved (stated in evidence as a bounded/unproved part): that these CRCs detect every error pattern in the guaranteed range (minimum distance of the CRC-24 code, burst/2-bit detection of CRC-32) - coding-theory facts about the polynomials that none of the solvers decides; hash/crc32 is assumed to compute the IEEE CRC-32.",
    technique="contract-based deductive verification: postconditions tying acceptance to checksum equality over a prophecy model of the input stream",
    design="DESIGN.md §4 C07"),
+ "C17": dict(
+   text="Proof of an ownership discipline on all 174 DeepCopyInto/DeepCopy/DeepCopyMessage/DeepCopyDataType functions, with the contract generated from the current type definitions on every run: every reference (pointer, slice backing array, map, interface payload) written into memory allocated during the copy is nil or itself freshly allocated; on return every reference component of *out (any depth of embedded struct values) is nil or fresh and nil exactly when the original's is, slice lengths and all scalar components equal the original's, and the Copy functions return fresh objects of the receiver's dynamic type. Fresh memory starts zeroed, so by induction nothing reachable from the copy through the new memory is shared with the original - for all contents and sizes, which tests of a few instances cannot show. A field added without regenerating, a shallow element copy or a shared interface value each fail a named obligation.",
+   note="Assumed: go/ssa, solvers, govc; interface-typed fields do not hold typed nil pointers; strings are immutable; callees of the family are used through the same generated summary (assume/guarantee). The equality half is proved for scalars, nil-ness, lengths and dynamic types; element-wise equality of copied slice/map contents is not stated.",
+   technique="contract-based deductive verification: type-generated ownership contract (freshness ghost = allocation counter), store-time and exit obligations per function",
+   design="DESIGN.md §4 C17"),
 }
 
 not_applicable = {
